@@ -180,19 +180,23 @@ Section Client.
     (store_object budget (const_script r), d').
 
   (* an index server in front of a REMOTE index store (index-server -s http://...): the handler's
-     h.s.GetIndex is RemoteHTTPIndex.GetIndex.  Its NoSuchObject is not an os "does not exist"
-     error (os.IsNotExist(err) = false), so HTTPIndexHandler.get answers 400 for it, like for
-     any other failure. *)
-  Definition index_get_proxied (r : index_result) : response :=
+     h.s.GetIndex is RemoteHTTPIndex.GetIndex.  Its NoSuchObject counts as "does not exist"
+     (indexNotFound) and is answered 404; any other failure 400.  [prefix = true] is the handler
+     before "fix: index server answers 404 when the index is missing in a remote upstream
+     store", which only recognised os not-exist errors and answered 400 for NoSuchObject. *)
+  Definition index_get_proxied_gen (prefix : bool) (r : index_result) : response :=
     match r with
     | IData ix => resp 200 (idx_encode ix)
-    | IMissing => resp 400 []
+    | IMissing => if prefix then resp 400 [] else resp 404 []
     | IErr => resp 400 []
     end.
+  Definition index_get_proxied := index_get_proxied_gen false.
 
   (* client -> index server -> remote index store answering according to [rs_up] *)
-  Definition proxied_get_index (budget budget_up : N) (rs_up : nat -> resp_ev) : index_result * N :=
-    get_index budget (const_script (index_get_proxied (fst (get_index budget_up rs_up)))).
+  Definition proxied_get_index_gen (prefix : bool) (budget budget_up : N) (rs_up : nat -> resp_ev) : index_result * N :=
+    get_index budget (const_script (index_get_proxied_gen prefix (fst (get_index budget_up rs_up)))).
+  Definition proxied_get_index := proxied_get_index_gen false.
+  Definition proxied_get_index_prefix := proxied_get_index_gen true.
 End Client.
 
 (* ---------- request bodies across retries ----------
